@@ -444,3 +444,9 @@ def run(ctx):
              "cylinder-surface projection takes its radius from the last rho edge", 7)
     from rules import c09
     c09.check_class_maps(ctx, "C15.d", m)
+
+    # facade (kernel) and fill / find_bin (base lookup) agree on the interval convention (shared with C03.c)
+    ctx.rule("C15.e", "base lookups of transformed coordinates follow the kernel's interval convention", 8)
+    from rules import conventions as conv
+    conv.check_find_bin_1d(ctx, "C15.e", m.cls("Histogram1D").methods["find_bin"])
+    conv.check_find_bin_nd(ctx, "C15.e", m.cls("HistogramND").methods["find_bin"])
